@@ -16,13 +16,14 @@ T = 'urn:t'
 O = 'urn:o'
 # symbol -> (namespace, local name) of an instance child element
 SYM = {'a': (T, 'a'), 'b': (T, 'b'), 'c': (T, 'c'), 'm': (T, 'm'), 'f': (O, 'f'), 'u': (T, 'u'),
-       'x': (T, 'x')}
-# leaf kind -> symbols matched.  'a' is the head of a substitution group with member m;
+       'x': (T, 'x'), 'k': (T, 'k')}
+# leaf kind -> symbols matched.  'a' is the head of a substitution group with member m and, through the
+# ABSTRACT member n (never usable itself), the second-level member k;
 # w = ##other (lax), W = ##any (lax), t = ##targetNamespace (lax).  u is an undeclared name in the
 # target namespace: only lax wildcards admitting that namespace accept it.
 LEAF = {
-    'a': frozenset('am'), 'b': frozenset('b'), 'c': frozenset('c'),
-    'w': frozenset('f'), 'W': frozenset('abcmfux'), 't': frozenset('abcmux'),
+    'a': frozenset('amk'), 'b': frozenset('b'), 'c': frozenset('c'),
+    'w': frozenset('f'), 'W': frozenset('abcmkfux'), 't': frozenset('abcmkux'),
     # local declarations of one name: x and z have type xs:string, y has type xs:int (EDC)
     'x': frozenset('x'), 'y': frozenset('x'), 'z': frozenset('x'),
 }
@@ -114,7 +115,9 @@ def to_xsd(m, groups=None, prefix='g'):
 
 GLOBALS = ('<xs:element name="a" type="xs:string"/><xs:element name="b" type="xs:string"/>'
            '<xs:element name="c" type="xs:string"/>'
-           '<xs:element name="m" type="xs:string" substitutionGroup="t:a"/>')
+           '<xs:element name="m" type="xs:string" substitutionGroup="t:a"/>'
+           '<xs:element name="n" type="xs:string" substitutionGroup="t:a" abstract="true"/>'
+           '<xs:element name="k" type="xs:string" substitutionGroup="t:n"/>')
 HEAD = ('<xs:schema xmlns:xs="http://www.w3.org/2001/XMLSchema" xmlns:t="%s" targetNamespace="%s" '
         'elementFormDefault="qualified">' % (T, T))
 
@@ -127,22 +130,28 @@ def type_body(m, groups, prefix):
 
 
 def schema_text(models, open_content=None):
-    """One global element r<i> per model.  open_content: None or (mode, leafkind) applied to all."""
+    """One global element r<i> per model.  open_content: None | (mode, leafkind) local openContent on every type |
+    ('default-' + mode, leafkind, appliesToEmpty) a schema-level defaultOpenContent."""
     body = []
     groups_all = []
+    default_oc = ''
+    ns = {'w': '##other', 'W': '##any', 't': '##targetNamespace'}
+    if open_content and open_content[0].startswith('default-'):
+        default_oc = ('<xs:defaultOpenContent mode="%s"%s><xs:any namespace="%s" processContents="lax"/>'
+                      '</xs:defaultOpenContent>' % (open_content[0][8:], ' appliesToEmpty="true"' if open_content[2] else '',
+                                                  ns[open_content[1]]))
     for i, m in enumerate(models):
         groups = []
-        x = type_body(m, groups, 'g%d_' % i)
+        x = type_body(m, groups, 'g%d_' % i) if not (m[0] != 'e' and not m[1]) else ''
         groups_all += groups
         oc = ''
-        if open_content:
-            mode, wk = open_content
-            ns = {'w': '##other', 'W': '##any', 't': '##targetNamespace'}[wk]
+        if open_content and not default_oc:
+            mode, wk = open_content[:2]
             oc = ('<xs:openContent mode="%s"><xs:any namespace="%s" processContents="lax"/>'
-                  '</xs:openContent>' % (mode, ns))
+                  '</xs:openContent>' % (mode, ns[wk]))
         body.append('<xs:element name="r%d"><xs:complexType>%s%s</xs:complexType></xs:element>'
                     % (i, oc, x))
-    return HEAD + GLOBALS + ''.join(groups_all) + ''.join(body) + '</xs:schema>'
+    return HEAD + default_oc + GLOBALS + ''.join(groups_all) + ''.join(body) + '</xs:schema>'
 
 
 def doc(i, w):
